@@ -2,8 +2,8 @@
   C16 — flatten / transform adapters commute with building; attributes interpolate in t.
 
   All statements are about `Model/Path/Adapters.lean` — the definitions the driver runs at
-  `Float32` (with lyon_geom's flattener modelled by `Model/Geom/Flatten.lean`) against the real
-  adapters on every check.  They hold for EVERY builder program of any length, every point type,
+  `Float32` against the real adapters on every check (lyon_geom's curve flattener is a parameter
+  there: the tie feeds what the real flattener returned for each curve; C09 is about it).  They hold for EVERY builder program of any length, every point type,
   every point map and every curve flattener `F : Flattener π K` / `G : IterFlattener π`
   (hypotheses on the flattener, where needed, are stated: it ends at `(to, 1)`).
 
@@ -19,6 +19,7 @@
   * `flatten_attr_interp_partial`   true whenever no curve is the first edge of its sub-path …
   * `for_each_flattened_attr_interp` … and always for the iterator-side `for_each_flattened`.
   * `flatten_wellnested`            adapters map well-nested call sequences to well-nested ones.
+  * `flatten_commutes_builder_iter` flattening while building = flattening while iterating.
   * `nesting_orders`                flatten∘transform and transform∘flatten keep the same
                                     (transformed) endpoints; inserted points may differ.
 
@@ -28,6 +29,7 @@
 -/
 import LyonVerif.Lemmas.Adapters
 import LyonVerif.Lemmas.AdaptersStored
+import LyonVerif.Lemmas.AdaptersField
 import LyonVerif.Lemmas.Field
 import LyonVerif.Model.Geom.Basic
 import LyonVerif.Model.RatScalar
@@ -130,12 +132,6 @@ def EndsAtTo (F : Flattener π K) : Prop :=
 def IterEndsAtTo (G : IterFlattener π) : Prop :=
   (∀ a c b, ∃ l, G.quad a c b = l ++ [b]) ∧ (∀ a c d b, ∃ l, G.cubic a c d b = l ++ [b])
 
-theorem emitAttr_one (prev a : List K) : emitAttr prev a 1 = a := by
-  have : ((1 : K) == Scalar.one) = true := by
-    rw [sc_beq]; simp
-  unfold emitAttr
-  rw [if_pos this]
-
 theorem keeps_run (F : Flattener π K) (hF : EndsAtTo F) (s : FlatB π K)
     (prog : List (Call π (List K))) :
     List.Sublist (endpoints prog) (endpoints (FlatB.run F s prog)) := by
@@ -206,34 +202,6 @@ theorem interp_is_lerp (fromA toA : List K) (t : K) :
     show (((1 : ℕ) : K) - t) * f + t * g = _
     push_cast; ring
 
-theorem interp_one (prev a : List K) (h : prev.length = a.length) : interp prev a 1 = a := by
-  induction prev generalizing a with
-  | nil => cases a <;> simp_all [interp]
-  | cons x r ih =>
-    cases a with
-    | nil => simp at h
-    | cons y s =>
-      have h' : r.length = s.length := by simpa using h
-      have := ih s h'
-      simp only [interp] at this ⊢
-      simp only [List.zipWith_cons_cons, this]
-      congr 1
-      show x * (((1 : ℕ) : K) - 1) + y * 1 = y
-      push_cast; ring
-
-theorem emitAttr_eq_interp (prev a : List K) (t : K) (h : prev.length = a.length) :
-    emitAttr prev a t = interp prev a t := by
-  by_cases ht : t = 1
-  · subst ht; rw [emitAttr_one, interp_one prev a h]
-  · have : (t == (Scalar.one : K)) = false := by
-      rw [Bool.eq_false_iff]; intro hh; rw [sc_beq] at hh; exact ht (by simpa using hh)
-    unfold emitAttr
-    rw [if_neg (by rw [this]; simp)]
-
-theorem emitLines_eq_specLines (segs : List (FSeg π K)) (prev a : List K)
-    (h : prev.length = a.length) : emitLines segs prev a = specLines segs prev a := by
-  simp [emitLines, specLines, emitAttr_eq_interp prev a _ h]
-
 /-- One curve call in a state whose `prev_attributes` ARE the attributes of the current
 endpoint: every inserted point carries `(1−t)·a_from + t·a_to` for the `t` the flattener
 reported (and the last one, at `t = 1`, carries `a_to`). -/
@@ -242,45 +210,6 @@ theorem flatten_step_interp (F : Flattener π K) (s : FlatB π K) (c p : π) (a 
     (s.step F (.quad c p a)).2
       = (F.quad s.cur c p).map fun g => Call.line g.b (interp s.prev a g.t) := by
   simp [FlatB.step, emitLines_eq_specLines _ _ _ h, specLines]
-
-theorem partial_run (F : Flattener π K) (n : Nat) (ab : Bool) (s s' : FlatB π K)
-    (prog : List (Call π (List K)))
-    (hlen : attrsLen n prog = true) (hnc : noCurveAfterBegin ab prog = true)
-    (hcur : s.cur = s'.cur) (hl : s'.prev.length = n) (hp : ab = false → s.prev = s'.prev) :
-    FlatB.run F s prog = FlatB.specRun F s' prog := by
-  induction prog generalizing ab s s' with
-  | nil => rfl
-  | cons c r ih =>
-    cases c with
-    | begin p a =>
-      simp only [attrsLen, Bool.and_eq_true, beq_iff_eq] at hlen
-      simp only [noCurveAfterBegin] at hnc
-      simp only [FlatB.run, FlatB.specRun, FlatB.step, FlatB.specStep]
-      rw [ih true ⟨p, s.prev⟩ ⟨p, a⟩ hlen.2 hnc rfl hlen.1 (by simp)]
-    | line p a =>
-      simp only [attrsLen, Bool.and_eq_true, beq_iff_eq] at hlen
-      simp only [noCurveAfterBegin] at hnc
-      simp only [FlatB.run, FlatB.specRun, FlatB.step, FlatB.specStep]
-      rw [ih false _ ⟨p, a⟩ hlen.2 hnc rfl hlen.1 (by simp)]
-    | quad k p a =>
-      simp only [attrsLen, Bool.and_eq_true, beq_iff_eq] at hlen
-      simp only [noCurveAfterBegin, Bool.and_eq_true, Bool.not_eq_true'] at hnc
-      have hpp := hp hnc.1
-      simp only [FlatB.run, FlatB.specRun, FlatB.step, FlatB.specStep]
-      rw [ih false _ ⟨p, a⟩ hlen.2 hnc.2 rfl hlen.1 (by simp), hcur, hpp,
-        emitLines_eq_specLines _ _ _ (by rw [hl, hlen.1])]
-    | cubic k1 k2 p a =>
-      simp only [attrsLen, Bool.and_eq_true, beq_iff_eq] at hlen
-      simp only [noCurveAfterBegin, Bool.and_eq_true, Bool.not_eq_true'] at hnc
-      have hpp := hp hnc.1
-      simp only [FlatB.run, FlatB.specRun, FlatB.step, FlatB.specStep]
-      rw [ih false _ ⟨p, a⟩ hlen.2 hnc.2 rfl hlen.1 (by simp), hcur, hpp,
-        emitLines_eq_specLines _ _ _ (by rw [hl, hlen.1])]
-    | end_ cl =>
-      simp only [attrsLen] at hlen
-      simp only [noCurveAfterBegin] at hnc
-      simp only [FlatB.run, FlatB.specRun, FlatB.step, FlatB.specStep]
-      rw [ih ab s s' hlen hnc hcur hl hp]
 
 /-- `flatten_attr_interp`, the part that is true of the builder-side adapter: for every program
 in which no curve is the first edge of its sub-path (`noCurveAfterBegin`) and whose endpoints
@@ -331,6 +260,65 @@ theorem for_each_flattened_keeps_endpoint (fa ta ca : List K) (h : fa.length = t
   have h1 : interpI fa ta 1 = ta := by
     rw [(interp_is_lerp fa ta 1).2, ← (interp_is_lerp fa ta 1).1, interp_one fa ta h]
   simp [eventEndpoints_linesA, h1]
+
+/-! ## Flattening while building = flattening while iterating -/
+
+theorem flatRun_events (F : Flattener π K) (G : IterFlattener π) (hF : EndsAtTo F)
+    (hq : ∀ a c b, G.quad a c b = (F.quad a c b).map (·.b))
+    (hc : ∀ a c d b, G.cubic a c d b = (F.cubic a c d b).map (·.b))
+    (st : Option (π × π)) (s : FlatB π K) (prog : List (Call π (List K)))
+    (hn : wellNestedFrom st.isSome prog = true) (hs : ∀ f c, st = some (f, c) → s.cur = c) :
+    specFrom st (FlatB.run F s prog) = flatIter G (specFrom st prog) := by
+  induction prog generalizing st s with
+  | nil => cases st <;> simp [FlatB.run, specFrom, flatIter]
+  | cons c r ih =>
+    cases st with
+    | none =>
+      cases c with
+      | begin p a =>
+        have := ih (some (p, p)) ⟨p, s.prev⟩ (by simpa [wellNestedFrom] using hn)
+          (by intro f c h; cases h; rfl)
+        simpa [FlatB.run, FlatB.step, specFrom, flatIter] using this
+      | line p a => simp [wellNestedFrom] at hn
+      | quad k p a => simp [wellNestedFrom] at hn
+      | cubic k1 k2 p a => simp [wellNestedFrom] at hn
+      | end_ cl => simp [wellNestedFrom] at hn
+    | some fc =>
+      obtain ⟨f, c0⟩ := fc
+      have hcur : s.cur = c0 := hs f c0 rfl
+      cases c with
+      | begin p a => simp [wellNestedFrom] at hn
+      | line p a =>
+        have := ih (some (f, p)) ⟨p, a⟩ (by simpa [wellNestedFrom] using hn)
+          (by intro f c h; cases h; rfl)
+        simpa [FlatB.run, FlatB.step, specFrom, flatIter] using this
+      | quad k p a =>
+        obtain ⟨l, x, hl⟩ := hF.1 c0 k p
+        have := ih (some (f, p)) ⟨p, a⟩ (by simpa [wellNestedFrom] using hn)
+          (by intro f c h; cases h; rfl)
+        simp only [FlatB.run, FlatB.step, specFrom, flatIter, hcur, hl, hq,
+          specFrom_emitLines_snoc, this]
+      | cubic k1 k2 p a =>
+        obtain ⟨l, x, hl⟩ := hF.2 c0 k1 k2 p
+        have := ih (some (f, p)) ⟨p, a⟩ (by simpa [wellNestedFrom] using hn)
+          (by intro f c h; cases h; rfl)
+        simp only [FlatB.run, FlatB.step, specFrom, flatIter, hcur, hl, hc,
+          specFrom_emitLines_snoc, this]
+      | end_ cl =>
+        have := ih none s (by simpa [wellNestedFrom] using hn) (by intro f c h; cases h)
+        simpa [FlatB.run, FlatB.step, specFrom, flatIter] using this
+
+/-- Flattening at build time and flattening at iteration time give the same path: for every
+well-nested program, the events denoted by what the builder-side `Flattened` hands down are
+exactly what `iterator::Flattened` yields over the events of the unflattened program — provided
+the two lyon_geom entry points agree on the points (`G` yields the `line.to`s of `F`) and `F`
+ends at `to`.  (Positions only: the events carry no attributes.) -/
+theorem flatten_commutes_builder_iter (F : Flattener π K) (G : IterFlattener π) (hF : EndsAtTo F)
+    (hq : ∀ a c b, G.quad a c b = (F.quad a c b).map (·.b))
+    (hc : ∀ a c d b, G.cubic a c d b = (F.cubic a c d b).map (·.b))
+    (o : π) (n : Nat) (prog : List (Call π (List K))) (h : WellNested prog) :
+    specEvents (flatBuilder F o n prog) = flatIter G (specEvents prog) :=
+  flatRun_events F G hF hq hc none _ prog h (by intro f c h; cases h)
 
 /-! ## Both nesting orders -/
 
@@ -418,6 +406,15 @@ example : EndsAtTo qFlattener :=
 
 example : IterEndsAtTo (π := Int) ⟨fun a _ b => [a, b], fun a _ _ b => [a, a, b]⟩ :=
   ⟨fun a _ b => ⟨[a], rfl⟩, fun a _ _ b => ⟨[a, a], rfl⟩⟩
+
+/-- the hypotheses of `flatten_commutes_builder_iter` together: an iterator flattener that yields
+the `line.to`s of a callback flattener ending at `to` -/
+example : ∃ G : IterFlattener Int, EndsAtTo qFlattener ∧
+    (∀ a c b, G.quad a c b = (qFlattener.quad a c b).map (·.b)) ∧
+    (∀ a c d b, G.cubic a c d b = (qFlattener.cubic a c d b).map (·.b)) :=
+  ⟨⟨fun a _ b => [a, b], fun a _ _ b => [a, a, b]⟩,
+   ⟨fun a _ b => ⟨[⟨a, a, 1/2⟩], a, rfl⟩, fun a _ _ b => ⟨[⟨a, a, 1/3⟩, ⟨a, a, 2/3⟩], a, rfl⟩⟩,
+   fun _ _ _ => rfl, fun _ _ _ _ => rfl⟩
 
 /-- hypotheses of `flatten_attr_interp_partial` / `transform_commutes` on a program with a curve
 (second edge) and two attributes -/
